@@ -15,6 +15,7 @@
 //        event at once (the registration of its event list), then a marker, a counter and the end; after the join
 //        saveLog and a check that every thread's three names occur exactly once in the file.  Meant for the TSan build.
 //   harness trace <outdir>
+//        (tname "-" = setThreadName is not called, "@e" = setThreadName(""))
 //        stdin lines:  T <pname|-> { | <tname|-> op op ... }     one "|" group per thread; "||" instead of "|" first joins all
 //                      threads started so far (a new phase: later threads do not overlap earlier ones and may be given
 //                      the thread id of a finished one); "|@" runs the script on the main thread, after a join
@@ -174,8 +175,18 @@ static int mainImgStack(const std::string &fmt, const std::string &outdir, int w
 // name that equals a category is the same pointer too.  Entries are never freed: a pointer designates one text for ever.
 static std::mutex g_poolMutex;
 static std::map<std::string, std::unique_ptr<std::string>> g_pool;
-static const char *literal(const std::string &text)
+// a token "@x<hex>" stands for the text with those bytes (texts with quotes, backslashes, control characters, colons ...)
+static std::string detok(const std::string &t)
 {
+  if (t.size() < 2 || t[0] != '@' || t[1] != 'x') return t;
+  std::string r;
+  for (size_t i = 2; i + 1 < t.size(); i += 2) r.push_back((char)std::stoi(t.substr(i, 2), nullptr, 16));
+  return r;
+}
+
+static const char *literal(const std::string &tok)
+{
+  const std::string text = detok(tok);
   std::lock_guard<std::mutex> lock(g_poolMutex);
   auto &e = g_pool[text];
   if (!e) e.reset(new std::string(text));
@@ -206,7 +217,8 @@ static void runThread(ThreadScript *ts)
   for (auto &op : ts->ops) f.push_back(split(op, ':'));
   size_t lead = 0;
   while (lead < f.size() && f[lead][0] == "W") { waitForSave(); ++lead; }
-  if (ts->tname != "-") tracing::setThreadName(ts->tname.c_str());
+  if (ts->tname == "@e") tracing::setThreadName("");          // the empty string as a name
+  else if (ts->tname != "-") tracing::setThreadName(detok(ts->tname).c_str());
   for (size_t oi = lead; oi < f.size(); ++oi) {
     auto &o = f[oi];
     const std::string &k = o[0];
@@ -246,6 +258,7 @@ static int mainTrace(const std::string &outdir)
     std::istringstream is(line);
     std::string tok, pname;
     is >> tok >> pname;
+    if (pname != "-") pname = detok(pname);
     std::vector<ThreadScript> scripts;
     std::vector<int> phase;          // phase of each script; -1 = run on the main thread
     std::vector<int> mainAfter;      // for main-thread scripts: the phase they follow
